@@ -263,6 +263,172 @@ fn main() {
         Tier::Thorough => 3_000_000,
     };
     cx.prop("random-maps", PropCfg::new(n), random_case, || (), |_, c| check(c));
-    // the exhaustive part is complete; the evidence flag describes the enumerated sub-checks
+
+    // ---- the supplier's mapping of the decision onto the wire answer (supplier_provide_changes)
+    // Exhaustive: every combination of the six window relations per supplier-known server
+    // (2 servers) x an extra consumer-only server x domain mismatch, against a real supplier.
+    cx.enumerate(
+        "supplier-answer-mapping",
+        6 * 6 * 2 * 2,
+        |i| MapCase {
+            rel: vec![(i % 6) as u8, ((i / 6) % 6) as u8],
+            extra_unknown: (i / 36) % 2 == 1,
+            domain_mismatch: (i / 72) % 2 == 1,
+        },
+        mapping_state,
+        |st, c| mapping_check(st, c),
+    );
     cx.finish();
+}
+
+// -------------------------------------------------------------------------------------------------
+use kanidmd_lib::prelude::QueryServerTransaction;
+use kanidmd_lib::repl::proto::{ReplIncrementalContext, ReplRuvRange};
+use vf_world::ops::{Op, Step};
+use vf_world::repl::Cluster;
+
+#[derive(Debug, Clone, Serialize, Deserialize)]
+struct MapCase {
+    /// per supplier-known server (sorted by uuid): 0 absent on consumer, 1 lagging (entirely before
+    /// the supplier window), 2 behind but overlapping, 3 identical window, 4 ahead but overlapping,
+    /// 5 advanced (entirely after the supplier window)
+    rel: Vec<u8>,
+    extra_unknown: bool,
+    domain_mismatch: bool,
+}
+
+struct MapState {
+    rt: tokio::runtime::Runtime,
+    cl: Cluster,
+    supplier: Vec<(Uuid, Duration, Duration)>,
+    domain: Uuid,
+}
+
+fn mapping_state() -> MapState {
+    let rt = vf_world::srv::runtime();
+    let (cl, supplier, domain) = rt.block_on(async {
+        let mut cl = Cluster::new(2).await;
+        // writes on both replicas at several times, replicated both ways, so that the supplier's RUV
+        // knows two servers, each with a window of non-zero width
+        let steps = vec![
+            Step::Do { r: 0, op: Op::CreatePerson { i: 0, name: 0 } },
+            Step::Do { r: 1, op: Op::CreatePerson { i: 1, name: 1 } },
+            Step::Repl { from: 1, to: 0 },
+            Step::Repl { from: 0, to: 1 },
+            Step::Do { r: 0, op: Op::Advance { secs: 60 } },
+            Step::Do { r: 1, op: Op::Advance { secs: 90 } },
+            Step::Do { r: 0, op: Op::CreateGroup { i: 0, name: 2, members: vec![] } },
+            Step::Do { r: 1, op: Op::CreateGroup { i: 1, name: 3, members: vec![] } },
+            Step::Repl { from: 1, to: 0 },
+        ];
+        for s in &steps {
+            cl.step(s).await;
+        }
+        let mut r = cl.nodes[0].qs.read().await.expect("read");
+        let ranges = kanidmd_lib::verif_hooks::repl::filtered_ruv_range(&mut r).expect("ruv");
+        let domain = r.get_domain_uuid();
+        let sup: Vec<(Uuid, Duration, Duration)> = ranges.into_iter().map(|(u, r)| (u, r.ts_min, r.ts_max)).collect();
+        drop(r);
+        (cl, sup, domain)
+    });
+    MapState { rt, cl, supplier, domain }
+}
+
+fn mapping_check(st: &mut MapState, c: &MapCase) -> Outcome {
+    // the supplier may know more than two servers (e.g. the origin of the initial content); the first
+    // two (by uuid) get the generated relation, the rest are presented as identical windows.
+    if st.supplier.len() < 2 {
+        return Outcome::fail("harness: supplier RUV has fewer than two servers", format!("{:?}", st.supplier));
+    }
+    let s1 = Duration::from_secs(1);
+    let mut consumer: BTreeMap<Uuid, ReplCidRange> = BTreeMap::new();
+    let mut lag = 0;
+    let mut adv = 0;
+    let mut common = 0;
+    let mut supply = 0;
+    for (i, (u, smin, smax)) in st.supplier.iter().enumerate() {
+        let mut rel = if i < 2 { c.rel[i] } else { 3 };
+        if rel == 1 && *smin < s1 + s1 {
+            // no room for a window entirely before the supplier's: present the identical window
+            rel = 3;
+        }
+        let w = match rel {
+            0 => None,
+            1 => Some((*smin - s1 - s1, *smin - s1)),
+            2 => {
+                if smin < smax {
+                    Some((*smin, *smax - Duration::from_nanos(1)))
+                } else {
+                    Some((*smin, *smax))
+                }
+            }
+            3 => Some((*smin, *smax)),
+            4 => Some((*smax, *smax + s1)),
+            _ => Some((*smax + s1, *smax + s1 + s1)),
+        };
+        match w {
+            None => supply += 1,
+            Some((a, b)) => {
+                common += 1;
+                if b < *smin {
+                    lag += 1;
+                } else if *smax < a {
+                    adv += 1;
+                } else if b < *smax {
+                    supply += 1;
+                }
+                consumer.insert(*u, ReplCidRange { ts_min: a, ts_max: b });
+            }
+        }
+    }
+    if c.extra_unknown {
+        consumer.insert(
+            suuid(99),
+            ReplCidRange {
+                ts_min: Duration::from_secs(5),
+                ts_max: Duration::from_secs(6),
+            },
+        );
+    }
+    let want = if c.domain_mismatch {
+        "DomainMismatch"
+    } else if common == 0 {
+        "UnwillingToSupply"
+    } else {
+        match (lag > 0, adv > 0) {
+            (true, false) => "RefreshRequired",
+            (false, true) | (true, true) => "UnwillingToSupply",
+            (false, false) => {
+                if supply > 0 {
+                    "V1"
+                } else {
+                    "NoChangesAvailable"
+                }
+            }
+        }
+    };
+    let ctx = ReplRuvRange::V1 {
+        domain_uuid: if c.domain_mismatch { suuid(7) } else { st.domain },
+        ranges: consumer,
+    };
+    let got = st.rt.block_on(async {
+        let mut r = st.cl.nodes[0].qs.read().await.expect("read");
+        r.supplier_provide_changes(ctx)
+    });
+    let got_s = match &got {
+        Ok(ReplIncrementalContext::DomainMismatch) => "DomainMismatch",
+        Ok(ReplIncrementalContext::NoChangesAvailable) => "NoChangesAvailable",
+        Ok(ReplIncrementalContext::RefreshRequired) => "RefreshRequired",
+        Ok(ReplIncrementalContext::UnwillingToSupply) => "UnwillingToSupply",
+        Ok(ReplIncrementalContext::V1 { .. }) => "V1",
+        Err(_) => "Err",
+    };
+    if got_s == want {
+        Outcome::pass(lag + adv > 0 || supply > 0).class(format!("answer:{want}"))
+    } else {
+        Outcome::fail(
+            format!("supplier answer differs from the decision table (want {want})"),
+            format!("case {c:?} supplier windows {:?}: got {got_s}, want {want}", st.supplier),
+        )
+    }
 }
